@@ -258,6 +258,7 @@ func TestPropC10(t *testing.T) {
 var _ = ref.Show
 
 func TestReplay(t *testing.T) {
+	replayLib(t)
 	for _, path := range evid.ReplayFiles("c10") {
 		var c Case
 		if _, err := evid.ReadFailure(path, &c); err != nil {
